@@ -4,8 +4,13 @@
 //!   mates names refs recs      names = 0|1 (preserve_read_names), refs as in `rt`,
 //!                              recs = ';'-joined  name|flag|rid|pos|cigar|mrid|mpos|tlen|seqhex
 //!                              (name `*` = none, rid/mrid -1 = none, pos/mpos 0 = none, cigar `*`)
-//!   obs = ';'-joined  flag,mrid,mpos,tlen  of the records read back, or Err:<kind> (writer) /
-//!         ReadErr:<kind> (reader) / Panic
+//!   obs = ';'-joined  flag,mrid,mpos,tlen  of the records read back, then ` L:` and ` M:` followed by
+//!         what set_mates decided, read from the file by the independent walker (per record the CF
+//!         bits DETACHED|MATE_IS_DOWNSTREAM, and `:<NF>` for a record with a downstream mate; the model
+//!         prints its two formulations of set_mates, the file is printed twice), then ` B:` and the raw
+//!         bytes (hex, `/`-separated) of the external blocks 8..12 = the MF / NS / NP / TS / NF series
+//!         (model: NV.CramRec.MatesBytes), or Err:<kind> (writer)
+//!         / ReadErr:<kind> (reader) / Panic
 use super::*;
 
 #[derive(Clone, Debug)]
@@ -91,9 +96,10 @@ fn ref_span(cigar: &str) -> usize {
     parse_cigar(cigar).iter().filter(|o| o.kind().consumes_reference()).map(|o| o.len()).sum()
 }
 
-/// indices that set_mates chains with record i (same name, segmented, not secondary)
+/// indices of the template of record i as set_mates collects it (same name, segmented, not
+/// secondary, not supplementary since /repo de003b4)
 fn chain_of(rs: &[MRec], i: usize) -> Vec<usize> {
-    let el = |r: &MRec| r.flag & 1 != 0 && r.flag & 0x100 == 0;
+    let el = |r: &MRec| r.flag & 1 != 0 && r.flag & 0x100 == 0 && r.flag & 0x800 == 0;
     if !el(&rs[i]) {
         return vec![i];
     }
@@ -116,6 +122,58 @@ fn consistent_plain_pair(x: &MRec, y: &MRec) -> bool {
     mirror(x, y) && mirror(y, x) && x.pos <= y.pos && x.tlen as i64 == t && y.tlen as i64 == -t
 }
 
+/// what set_mates decided, from the file: the slice's CF (content id 2) and NF (content id 12)
+/// external blocks hold one ITF8 per record / per record with MATE_IS_DOWNSTREAM (the writer is
+/// run without block compression)
+fn links_of_file(file: &[u8], n: usize) -> Result<String, String> {
+    let w = walk::walk_file(file)?;
+    if w.containers.len() != 2 {
+        return Err(format!("{} containers", w.containers.len()));
+    }
+    let ints = |cid: i32| -> Result<Vec<i32>, String> {
+        let mut out = Vec::new();
+        for b in w.containers[1].blocks.iter().filter(|b| b.ctype == 4 && b.cid == cid) {
+            if b.method != 0 {
+                return Err(format!("block {cid} is compressed"));
+            }
+            let mut cur = walk::Cur::new(&file[..b.data.1], b.data.0);
+            while cur.p < b.data.1 {
+                out.push(cur.itf8()?);
+            }
+        }
+        Ok(out)
+    };
+    let raw = |cid: i32| -> Vec<u8> {
+        let mut out = Vec::new();
+        for b in w.containers[1].blocks.iter().filter(|b| b.ctype == 4 && b.cid == cid) {
+            out.extend_from_slice(&file[b.data.0..b.data.1]);
+        }
+        out
+    };
+    // the raw MF / NS / NP / TS / NF series (model: NV.CramRec.MatesBytes.mates_bytes)
+    let bytes = [8, 9, 10, 11, 12].iter().map(|&c| hex(&raw(c))).collect::<Vec<_>>().join("/");
+    let cf = ints(2)?;
+    let nf = ints(12)?;
+    if cf.len() != n {
+        return Err(format!("{} CF values for {n} records", cf.len()));
+    }
+    let mut k = 0;
+    let mut parts = Vec::new();
+    for f in cf {
+        if f & 4 != 0 {
+            let d = nf.get(k).ok_or_else(|| "NF series too short".to_string())?;
+            k += 1;
+            parts.push(format!("{}:{}", f & 6, d));
+        } else {
+            parts.push(format!("{}", f & 6));
+        }
+    }
+    if k != nf.len() {
+        return Err("NF series too long".into());
+    }
+    Ok(format!("{} M:{} B:{}", parts.join(","), parts.join(","), bytes))
+}
+
 pub fn run_mates(c: &Case) -> Obs {
     let names = c.args[0] == "1";
     let refs = parse_refs(&c.args[1]);
@@ -123,13 +181,14 @@ pub fn run_mates(c: &Case) -> Obs {
     let h = header_of(&refs);
     let recs: Vec<RecordBuf> = ms.iter().map(record_of).collect();
     let o = Opts { names, deltas: true, rps: recs.len() + 1, enc: "all:none".into() };
-    let res = nv::guarded(AssertUnwindSafe(|| -> Result<Vec<(u16, i64, usize, i32)>, String> {
+    let res = nv::guarded(AssertUnwindSafe(|| -> Result<(Vec<(u16, i64, usize, i32)>, String), String> {
         let file = write_cram(&o, &refs, &h, &recs).map_err(|e| format!("Err:{}", nv::errkind(&e)))?;
         let (_, back) = read_cram(&refs, &file).map_err(|e| format!("ReadErr:{}", nv::errkind(&e)))?;
         if back.len() != recs.len() {
             return Err("RecordCount".into());
         }
-        Ok(back
+        let links = links_of_file(&file, recs.len()).map_err(|e| format!("Walk:{e}"))?;
+        Ok((back
             .iter()
             .map(|r| {
                 (
@@ -139,7 +198,7 @@ pub fn run_mates(c: &Case) -> Obs {
                     r.template_length(),
                 )
             })
-            .collect())
+            .collect(), links))
     }));
     let chained = (0..ms.len()).any(|i| chain_of(&ms, i).len() >= 2);
     match res {
@@ -150,8 +209,9 @@ pub fn run_mates(c: &Case) -> Obs {
             let o = Obs::ok(e.clone(), false);
             if big && e == "Err:InvalidInput" { o } else { o.with_verdict(fail("mates-rejected", e)) }
         }
-        Outcome::Done(Ok(v)) => {
+        Outcome::Done(Ok((v, links))) => {
             let obs = v.iter().map(|(f, r, p, t)| format!("{f},{r},{p},{t}")).collect::<Vec<_>>().join(";");
+            let obs = format!("{obs} L:{links}");
             let mut verdict = Ok(());
             for (i, (m, a)) in ms.iter().zip(&v).enumerate() {
                 if (m.flag, m.mrid, m.mpos, m.tlen) == *a {
@@ -228,6 +288,11 @@ pub fn push_mates(rng: &mut Rng, w: &mut CaseWriter) {
             r.pos = pos;
             r.cigar = cigar;
             r.seq = seq;
+            if rng.chance(1, 8) {
+                // flagged unmapped but carrying an alignment: its features are not written, and
+                // the writer's calculate_template_length uses the read length for it
+                r.flag |= 4;
+            }
         } else {
             r.flag |= 4;
             let len = match rng.below(6) {
@@ -279,7 +344,7 @@ pub fn push_mates(rng: &mut Rng, w: &mut CaseWriter) {
                         m.flag |= 8;
                     }
                 }
-                let span = |r: &MRec| if r.cigar == "*" { r.seq.len() } else { ref_span(&r.cigar) };
+                let span = |r: &MRec| if r.cigar == "*" || r.flag & 4 != 0 { r.seq.len() } else { ref_span(&r.cigar) };
                 let t = if rs[a].pos == 0 || rs[b].pos == 0 {
                     0
                 } else {
